@@ -26,7 +26,11 @@ use routee_compass::app::compass::config::cost_model::cost_model_service::CostMo
 use routee_compass::app::search::search_app::SearchApp;
 use routee_compass::app::search::search_app_result::SearchAppResult;
 use routee_compass::plugin::output::default::summary::plugin::SummaryOutputPlugin;
+use routee_compass::app::compass::config::builders::OutputPluginBuilder;
+use routee_compass::app::compass::search_orientation::SearchOrientation;
+use routee_compass::plugin::output::default::traversal::builder::TraversalPluginBuilder;
 use routee_compass::plugin::output::default::traversal::plugin::TraversalPlugin;
+use routee_compass::plugin::output::default::uuid::builder::UUIDOutputPluginBuilder;
 use routee_compass::plugin::output::default::traversal::traversal_ops as ops;
 use routee_compass::plugin::output::default::traversal::traversal_output_format::TraversalOutputFormat;
 use routee_compass::plugin::output::default::uuid::plugin::UUIDOutputPlugin;
@@ -42,6 +46,8 @@ use routee_compass_core::model::cost::vehicle::vehicle_cost_rate::VehicleCostRat
 use routee_compass_core::model::frontier::default::no_restriction::NoRestriction;
 use routee_compass_core::model::network::edge_id::EdgeId;
 use routee_compass_core::model::network::graph::Graph;
+use routee_compass_core::model::network::{Edge, Vertex};
+use routee_compass_core::util::compact_ordered_hash_map::CompactOrderedHashMap;
 use routee_compass_core::model::network::vertex_id::VertexId;
 use routee_compass_core::model::state::state_feature::StateFeature;
 use routee_compass_core::model::state::state_model::StateModel;
@@ -49,6 +55,7 @@ use routee_compass_core::model::termination::termination_model::TerminationModel
 use routee_compass_core::model::traversal::default::distance_traversal_model::DistanceTraversalModel;
 use routee_compass_core::model::traversal::default::distance_traversal_service::DistanceTraversalService;
 use routee_compass_core::model::traversal::state::state_variable::StateVar;
+use routee_compass_core::model::unit::as_f64::AsF64;
 use routee_compass_core::model::unit::{Cost, Distance, DistanceUnit};
 use routee_compass_core::util::geo::geo_io_utils;
 use serde_json::{json, Value};
@@ -773,6 +780,18 @@ fn search_instance() -> SearchInstance {
     }
 }
 
+fn clone_si(si: &SearchInstance) -> SearchInstance {
+    SearchInstance {
+        directed_graph: si.directed_graph.clone(),
+        state_model: si.state_model.clone(),
+        traversal_model: si.traversal_model.clone(),
+        access_model: si.access_model.clone(),
+        cost_model: si.cost_model.clone(),
+        frontier_model: si.frontier_model.clone(),
+        termination_model: si.termination_model.clone(),
+    }
+}
+
 fn search_app() -> SearchApp {
     SearchApp::new(
         SearchAlgorithm::Dijkstra,
@@ -1117,7 +1136,20 @@ fn shape_tree(fmt: &str, n_trees: usize, v: &Value) -> Result<String, String> {
 }
 
 /// the real `apply_output_processing` with real plugins built from files
-fn resp_case(ctx: &mut Ctx, idx: usize, dir: &str, app: &SearchApp, search_ok: bool, req: &Value, plugins: &[PluginSpec], routes: &[Vec<Et>], trees: &[Vec<Br>]) {
+#[allow(clippy::too_many_arguments)]
+fn resp_case(
+    ctx: &mut Ctx,
+    idx: usize,
+    dir: &str,
+    app: &SearchApp,
+    search_ok: bool,
+    req: &Value,
+    plugins: &[PluginSpec],
+    routes: &[Vec<Et>],
+    trees: &[Vec<Br>],
+    real_si: Option<&SearchInstance>,
+    via_builders: bool,
+) {
     let mut case = format!("resp {} {} {}", if search_ok { 1 } else { 0 }, jsonproto::enc(req), plugins.len());
     let mut real: Vec<Arc<dyn OutputPlugin>> = vec![];
     let mut build_failed = None;
@@ -1127,11 +1159,30 @@ fn resp_case(ctx: &mut Ctx, idx: usize, dir: &str, app: &SearchApp, search_ok: b
                 case.push_str(&format!(" trav {} {} {}", enc_table(table), enc_optfmt(route), enc_optfmt(tree)));
                 let path = format!("{}/geom_{}_{}.txt", dir, idx, k);
                 write_rows(&path, &table.iter().map(|l| wkt_row(l)).collect::<Vec<_>>());
-                let pl = TraversalPlugin::from_file(&path, route.map(|i| FORMATS[i].1), tree.map(|i| FORMATS[i].1));
-                let _ = std::fs::remove_file(&path);
-                match pl {
-                    Ok(pl) => real.push(Arc::new(pl)),
-                    Err(e) => build_failed = Some(format!("{}", e)),
+                if via_builders {
+                    // the configuration route: `[[plugin.output_plugins]] type = "traversal" …`
+                    let mut params = serde_json::Map::new();
+                    params.insert("type".into(), json!("traversal"));
+                    params.insert("geometry_input_file".into(), json!(path));
+                    if let Some(i) = route {
+                        params.insert("route".into(), json!(FORMATS[*i].0));
+                    }
+                    if let Some(i) = tree {
+                        params.insert("tree".into(), json!(FORMATS[*i].0));
+                    }
+                    let pl = TraversalPluginBuilder {}.build(&Value::Object(params));
+                    let _ = std::fs::remove_file(&path);
+                    match pl {
+                        Ok(pl) => real.push(pl),
+                        Err(e) => build_failed = Some(format!("{}", e)),
+                    }
+                } else {
+                    let pl = TraversalPlugin::from_file(&path, route.map(|i| FORMATS[i].1), tree.map(|i| FORMATS[i].1));
+                    let _ = std::fs::remove_file(&path);
+                    match pl {
+                        Ok(pl) => real.push(Arc::new(pl)),
+                        Err(e) => build_failed = Some(format!("{}", e)),
+                    }
                 }
             }
             PluginSpec::Summary => {
@@ -1142,11 +1193,20 @@ fn resp_case(ctx: &mut Ctx, idx: usize, dir: &str, app: &SearchApp, search_ok: b
                 case.push_str(&format!(" uuid {} {}", table.len(), table.iter().map(|s| jsonproto::hex(s)).collect::<Vec<_>>().join(" ")));
                 let path = format!("{}/uuid_{}_{}.txt", dir, idx, k);
                 write_rows(&path, table);
-                let pl = UUIDOutputPlugin::from_file(&path);
-                let _ = std::fs::remove_file(&path);
-                match pl {
-                    Ok(pl) => real.push(Arc::new(pl)),
-                    Err(e) => build_failed = Some(format!("{}", e)),
+                if via_builders {
+                    let pl = UUIDOutputPluginBuilder {}.build(&json!({"type": "uuid", "uuid_input_file": path}));
+                    let _ = std::fs::remove_file(&path);
+                    match pl {
+                        Ok(pl) => real.push(pl),
+                        Err(e) => build_failed = Some(format!("{}", e)),
+                    }
+                } else {
+                    let pl = UUIDOutputPlugin::from_file(&path);
+                    let _ = std::fs::remove_file(&path);
+                    match pl {
+                        Ok(pl) => real.push(Arc::new(pl)),
+                        Err(e) => build_failed = Some(format!("{}", e)),
+                    }
                 }
             }
         }
@@ -1167,8 +1227,11 @@ fn resp_case(ctx: &mut Ctx, idx: usize, dir: &str, app: &SearchApp, search_ok: b
         ctx.fail(idx, "plugin/table-not-loaded", e);
         return;
     }
-    let sr: Result<(SearchAppResult, SearchInstance), CompassAppError> =
-        if search_ok { Ok((app_result(routes, trees), search_instance())) } else { Err(CompassAppError::InternalError("search failed".into())) };
+    let sr: Result<(SearchAppResult, SearchInstance), CompassAppError> = if search_ok {
+        Ok((app_result(routes, trees), real_si.map(clone_si).unwrap_or_else(search_instance)))
+    } else {
+        Err(CompassAppError::InternalError("search failed".into()))
+    };
     let resp = catch_unwind(AssertUnwindSafe(|| apply_output_processing(req, sr, app, &real)));
     // the traversal plugin that writes last decides the keys
     let mut route_fmt: Option<usize> = None;
@@ -1370,6 +1433,143 @@ fn resp_case(ctx: &mut Ctx, idx: usize, dir: &str, app: &SearchApp, search_ok: b
 }
 
 // ---------------------------------------------------------------------------------------------
+// end to end: a real search on a random network, its routes and trees through the real plugins
+
+fn extract_et(e: &EdgeTraversal) -> Et {
+    Et { edge: e.edge_id.0, acc: e.access_cost.as_f64(), trav: e.traversal_cost.as_f64(), state: e.result_state.iter().map(|s| s.0).collect() }
+}
+
+fn e2e_case(ctx: &mut Ctx, idx: usize, dir: &str, rng: &mut Rng) {
+    let n = 3 + rng.below(10);
+    let coords: Vec<Pt> = (0..n).map(|i| ((-105.0 + 0.01 * i as f64 + 0.001 * rng.unit()) as f32, (39.0 + rng.unit()) as f32)).collect();
+    let vertices: Vec<Vertex> = coords.iter().enumerate().map(|(i, (x, y))| Vertex::new(i, *x, *y)).collect();
+    let mut out_deg = vec![0usize; n];
+    let mut in_deg = vec![0usize; n];
+    let mut pairs: Vec<(usize, usize)> = vec![];
+    for i in 0..n {
+        if rng.chance(5, 6) {
+            pairs.push((i, (i + 1) % n));
+        }
+    }
+    for _ in 0..rng.below(2 * n + 1) {
+        let (u, v) = (rng.below(n), rng.below(n));
+        if u != v {
+            pairs.push((u, v));
+        }
+    }
+    let mut edges: Vec<Edge> = vec![];
+    for (u, v) in pairs {
+        // at most four out- and in-edges per vertex (keeps clear of the adjacency container's large-map path)
+        if out_deg[u] < 4 && in_deg[v] < 4 {
+            out_deg[u] += 1;
+            in_deg[v] += 1;
+            edges.push(Edge::new(edges.len(), u, v, rng.small_decimal(900, 1) + 10.0));
+        }
+    }
+    let mut adj = vec![CompactOrderedHashMap::empty(); n];
+    let mut rev = vec![CompactOrderedHashMap::empty(); n];
+    for e in &edges {
+        adj[e.src_vertex_id.0].insert(e.edge_id, e.dst_vertex_id);
+        rev[e.dst_vertex_id.0].insert(e.edge_id, e.src_vertex_id);
+    }
+    let m = edges.len();
+    let edge_ends: Vec<(usize, usize)> = edges.iter().map(|e| (e.src_vertex_id.0, e.dst_vertex_id.0)).collect();
+    let graph = Graph { adj: adj.into_boxed_slice(), rev: rev.into_boxed_slice(), edges: edges.into_boxed_slice(), vertices: vertices.into_boxed_slice() };
+    let (alg_name, alg) = match rng.below(4) {
+        0 => ("dijkstra", SearchAlgorithm::Dijkstra),
+        1 => ("a_star", SearchAlgorithm::AStarAlgorithm { weight_factor: None }),
+        2 => ("ksp_single_via", SearchAlgorithm::KspSingleVia { k: 2 + rng.below(2), underlying: Box::new(SearchAlgorithm::Dijkstra), similarity: None, termination: None }),
+        _ => ("dijkstra", SearchAlgorithm::Dijkstra),
+    };
+    let app = SearchApp::new(
+        alg,
+        graph,
+        state_model(),
+        Arc::new(DistanceTraversalService { distance_unit: DistanceUnit::Meters }),
+        Arc::new(NoAccessModel {}),
+        CostModelService {
+            vehicle_rates: Arc::new(HashMap::from([(String::from("distance"), VehicleCostRate::Raw)])),
+            network_rates: Arc::new(HashMap::new()),
+            weights: Arc::new(HashMap::from([(String::from("distance"), 1.0)])),
+            cost_aggregation: CostAggregation::Sum,
+            ignore_unknown_weights: false,
+        },
+        Arc::new(NoRestriction {}),
+        TerminationModel::IterationsLimit { limit: 100_000 },
+    );
+    let edge_oriented = m > 0 && rng.chance(1, 5);
+    let with_destination = alg_name == "ksp_single_via" || !rng.chance(1, 4);
+    let (req, orientation) = if edge_oriented {
+        let mut q = serde_json::Map::new();
+        q.insert("origin_edge".into(), json!(rng.below(m)));
+        if with_destination {
+            q.insert("destination_edge".into(), json!(rng.below(m)));
+        }
+        (Value::Object(q), SearchOrientation::Edge)
+    } else {
+        let mut q = serde_json::Map::new();
+        q.insert("origin_vertex".into(), json!(rng.below(n)));
+        if with_destination {
+            q.insert("destination_vertex".into(), json!(rng.below(n)));
+        }
+        (Value::Object(q), SearchOrientation::Vertex)
+    };
+    let searched = catch_unwind(AssertUnwindSafe(|| app.run(&req, &orientation)));
+    // the geometry of an edge runs from its source vertex to its destination vertex: consecutive edges share
+    // the joint point; the last rows are sometimes missing
+    let mut table: Vec<Vec<Pt>> = edge_ends
+        .iter()
+        .map(|(u, v)| {
+            let mut l = vec![coords[*u]];
+            for _ in 0..rng.below(4) {
+                l.push(((coords[*u].0 + coords[*v].0) / 2.0 + rng.unit() as f32 * 0.001, (coords[*u].1 + coords[*v].1) / 2.0 + rng.unit() as f32 * 0.001));
+            }
+            l.push(coords[*v]);
+            l
+        })
+        .collect();
+    if rng.chance(1, 5) && !table.is_empty() {
+        let keep = rng.below(table.len());
+        table.truncate(keep.max(1));
+    }
+    let fmt_route = rng.below(5);
+    let fmt_tree = rng.below(5);
+    let mut plugins = vec![PluginSpec::Traversal { table, route: Some(fmt_route), tree: if rng.chance(3, 4) { Some(fmt_tree) } else { None } }, PluginSpec::Summary];
+    if !edge_oriented && rng.chance(3, 4) {
+        plugins.push(PluginSpec::Uuid { table: gen_uuid_table(rng, n) });
+    }
+    ctx.count(&format!("e2e_{}", alg_name));
+    ctx.count(if edge_oriented { "e2e_edge_oriented" } else { "e2e_vertex_oriented" });
+    match searched {
+        Err(_) => {
+            // a panic inside the search is another property's business (C12/C13); nothing to render
+            ctx.count("e2e_search_panicked");
+            ctx.emit(idx, "skip".into(), "bad-case".into());
+        }
+        Ok(Err(e)) => {
+            if std::env::var("C20_DEBUG").is_ok() {
+                eprintln!("E2E search failed: {}", e);
+            }
+            ctx.count("e2e_search_failed");
+            resp_case(ctx, idx, dir, &app, false, &req, &plugins, &[], &[], None, true);
+        }
+        Ok(Ok((result, si))) => {
+            let routes: Vec<Vec<Et>> = result.routes.iter().map(|r| r.iter().map(extract_et).collect()).collect();
+            let trees: Vec<Vec<Br>> = result
+                .trees
+                .iter()
+                .map(|t| t.iter().map(|(k, b)| Br { key: k.0, terminal: b.terminal_vertex.0, et: extract_et(&b.edge_traversal) }).collect())
+                .collect();
+            ctx.count(&format!("e2e_routes_{}", routes.len().min(3)));
+            if routes.iter().any(|r| r.len() >= 2) {
+                ctx.count("e2e_route_with_joint");
+            }
+            resp_case(ctx, idx, dir, &app, true, &req, &plugins, &routes, &trees, Some(&si), true);
+        }
+    }
+}
+
+// ---------------------------------------------------------------------------------------------
 
 fn gen_uuid_table(rng: &mut Rng, n: usize) -> Vec<String> {
     (0..n)
@@ -1493,20 +1693,20 @@ pub fn run(ctx: &mut Ctx) -> &'static str {
     for f in 0..5 {
         if let Some(idx) = ctx.begin() {
             let plugins = vec![PluginSpec::Traversal { table: t0.clone(), route: Some(f), tree: None }, PluginSpec::Summary, PluginSpec::Uuid { table: ids0.clone() }];
-            resp_case(ctx, idx, &dir, &app, true, &json!({"origin_vertex": 0, "destination_vertex": 2}), &plugins, &[r1.clone()], &[tr1.clone()]);
+            resp_case(ctx, idx, &dir, &app, true, &json!({"origin_vertex": 0, "destination_vertex": 2}), &plugins, &[r1.clone()], &[tr1.clone()], None, false);
         }
         if let Some(idx) = ctx.begin() {
             let plugins = vec![PluginSpec::Traversal { table: t0.clone(), route: Some(f), tree: Some(f) }, PluginSpec::Summary, PluginSpec::Uuid { table: ids0.clone() }];
-            resp_case(ctx, idx, &dir, &app, true, &json!({"origin_vertex": 2, "destination_vertex": 1}), &plugins, &[r0.clone()], &[tr1.clone()]);
+            resp_case(ctx, idx, &dir, &app, true, &json!({"origin_vertex": 2, "destination_vertex": 1}), &plugins, &[r0.clone()], &[tr1.clone()], None, false);
         }
     }
     if let Some(idx) = ctx.begin() {
         let plugins = vec![PluginSpec::Traversal { table: t0.clone(), route: Some(0), tree: None }];
-        resp_case(ctx, idx, &dir, &app, true, &json!({"origin_vertex": 1, "destination_vertex": 1}), &plugins, &[vec![]], &[vec![]]);
+        resp_case(ctx, idx, &dir, &app, true, &json!({"origin_vertex": 1, "destination_vertex": 1}), &plugins, &[vec![]], &[vec![]], None, false);
     }
     if let Some(idx) = ctx.begin() {
         let plugins = vec![PluginSpec::Traversal { table: t0.clone(), route: None, tree: Some(0) }, PluginSpec::Uuid { table: ids0.clone() }];
-        resp_case(ctx, idx, &dir, &app, true, &json!({"origin_vertex": 1}), &plugins, &[], &[tr1.clone()]);
+        resp_case(ctx, idx, &dir, &app, true, &json!({"origin_vertex": 1}), &plugins, &[], &[tr1.clone()], None, false);
     }
 
     // ---- generated: generate_route_output -------------------------------------------------------
@@ -1637,7 +1837,14 @@ pub fn run(ctx: &mut Ctx) -> &'static str {
         }
         let req = if rng.chance(3, 4) { json!({"origin_vertex": rng.below(n_vertices), "destination_vertex": rng.below(n_vertices)}) } else { gen_request(&mut rng, n_vertices) };
         let search_ok = !rng.chance(1, 15);
-        resp_case(ctx, idx, &dir, &app, search_ok, &req, &plugins, &routes, &trees);
+        resp_case(ctx, idx, &dir, &app, search_ok, &req, &plugins, &routes, &trees, None, false);
+    }
+    // ---- generated: real searches, plugins built through the configuration builders --------------
+    let n_e2e = ctx.n(150, 3000);
+    for _ in 0..n_e2e {
+        let Some(idx) = ctx.begin() else { continue };
+        let mut rng = Rng::for_case(ctx.seed, 20, idx as u64);
+        e2e_case(ctx, idx, &dir, &mut rng);
     }
     let _ = std::fs::remove_dir_all(&dir);
     let _ = fbits(0.0);
